@@ -151,7 +151,9 @@ def u_a1_taxaops(ctx):
     ex = ctx.explorer(timeout_ms=5000)
     for key in CLASSES:
         C = _cls(key)
-        for op in ("select", "delete", "insert", "adjoin", "insert_matrix", "adjoin_matrix"):
+        for op in ("select", "delete", "insert", "adjoin", "insert_matrix", "adjoin_matrix",
+                   # a matrix operand plus ONE explicit label array: the explicit array wins, the other label is the operand's own
+                   "insert_matrix+taxa", "adjoin_matrix+taxa", "insert_matrix+taxa_grp", "adjoin_matrix+taxa_grp"):
             for present in (("taxa", "taxa_grp", "trait"), ("taxa",), ()):
                 tag = "%s:%s|%s" % (C.__name__, op, ",".join(present) or "-")
 
@@ -192,11 +194,17 @@ def u_a1_taxaops(ctx):
                             F = lambda a, ax: oarr.a_delete(a, idx, ax)
                         else:
                             k = fresh_int("k", 0)
-                            if op.endswith("_matrix"):
+                            if "_matrix" in op:
                                 other, g = mkobj("o_", k)
                                 V = other.unscale()
                                 vals, kw = other, {}
                                 labs = dict(taxa=g["_taxa"], taxa_grp=g["_taxa_grp"])
+                                if "+" in op:
+                                    which = op.split("+")[1]
+                                    if which not in present:
+                                        return "ok"
+                                    labs[which] = OArr.fresh("explicit_" + which, (k,), object if which == "taxa" else "int64")
+                                    kw = {which: labs[which]}
                             else:
                                 V = OArr.fresh("values", (k, t), "float64")
                                 vals = V
